@@ -17,7 +17,7 @@ func init() {
 	register(&CheckDef{ID: "C05", Level: "exploration", Engine: "A", Draw: drawC05,
 		Rule: "1-4 clients on both protocols; every request carries 0-3 client-chosen values (unique tokens) under each configured fingerprint header name, in random letter case on HTTP/1.1, repeated or not; injector set = default three plus 0-2 custom injectors whose outcome is value / empty / error." + ruleFront})
 	register(&CheckDef{ID: "C15", Level: "exploration", Engine: "A", Draw: drawC15,
-		Rule: "1-3 clients, both protocols, -enable-kubernetes-probe true/false through the real flag wiring; User-Agent absent / empty / exact prefix / infix / suffix / case variants / two lines / the text in another header; methods GET/HEAD/POST, several paths." + ruleFront})
+		Rule: "1-3 clients, both protocols, -enable-kubernetes-probe true/false through the real flag wiring; User-Agent absent / empty / exact prefix / infix / suffix / case variants / two lines / the text in another header; methods GET/HEAD/POST, several paths; 15%: the proxy is shut down at a drawn step while the connections exist (a probe is still answered 200 OK, any other request is forwarded or fails with a gateway error, never answered locally)." + ruleFront})
 }
 
 func sniKnownSig(rec []byte) string {
@@ -57,6 +57,10 @@ func drawC01(t *rapid.T) *Case {
 	cps, metas := DrawFront(t, FrontOpts{MinClients: 1, MaxClients: 5, MaxReqs: 3, Segment: true, Hello: ho, Sequential: drawBool(t, "seq", 50), HeaderGen: nominateGen(15)})
 	cps, metas = addResumers(t, cps, metas)
 	p.Clients = cps
+	if drawBool(t, "timedout", 10) {
+		// connections that run into the handshake timeout before / next to the real ones
+		metas = addTimedOutHandshakes(t, p, metas, len(cps))
+	}
 	p.Tape, p.Tail = drawTape(t, 64)
 	c := &Case{Plan: p, Metas: metas, Oracle: oracleC01}
 	c.Summary = defaultSummary(p, metas)
@@ -252,6 +256,10 @@ func drawC02(t *rapid.T) *Case {
 		aux.Twin[id] = i
 	}
 	p.Clients = cps
+	if drawBool(t, "timedout", 10) {
+		// connections that run into the handshake timeout before / next to the real ones
+		metas = addTimedOutHandshakes(t, p, metas, len(cps))
+	}
 	p.Tape, p.Tail = drawTape(t, 64)
 	c := &Case{Plan: p, Metas: metas, Oracle: oracleC02, Aux: aux}
 	c.Summary = defaultSummary(p, metas)
@@ -594,9 +602,16 @@ func drawC15(t *rapid.T) *Case {
 		aux.Pending = tag
 	}
 	p.Clients = cps
+	if drawBool(t, "shutdown", 15) {
+		// the proxy is shut down at a drawn step: HTTP/2 connections that exist go on being
+		// served while the drain lasts (their requests run with a cancelled context): a probe
+		// is still answered 200 "OK", another request is forwarded or fails with a gateway
+		// error - it is never answered locally
+		p.CancelAtStep = rapid.IntRange(1, 120).Draw(t, "cancelat")
+	}
 	p.Tape, p.Tail = drawTape(t, 32)
 	c := &Case{Plan: p, Metas: metas, Oracle: oracleC15, Aux: aux}
-	c.Summary = fmt.Sprintf("probe=%v expect=%v | %s", aux.ProbeOn, aux.Expect, defaultSummary(p, metas))
+	c.Summary = fmt.Sprintf("probe=%v cancelAt=%d expect=%v | %s", aux.ProbeOn, p.CancelAtStep, aux.Expect, defaultSummary(p, metas))
 	c.Nontrivial = func(w *World, c *Case) bool {
 		for _, cl := range w.Clients {
 			if len(cl.Resps) > 0 || len(cl.Streams) > 0 {
@@ -644,7 +659,7 @@ func oracleC15(w *World, c *Case) {
 		for ri, r := range m.Reqs {
 			status, body, hdr, ok := clientResponse(w, c, ci, ri)
 			if !ok {
-				if r.Tag == aux.Pending {
+				if r.Tag == aux.Pending && !w.Cancelled {
 					w.Violate("probe_not_answered", "probe_not_answered", "probe %s (%s) whose body was still outstanding got no answer (client step errors %v, run stuck=%v)", r.Tag, protoOf(w, ci), w.Clients[ci].StepErrs, w.Stuck)
 				}
 				continue
@@ -657,6 +672,21 @@ func oracleC15(w *World, c *Case) {
 				want = "forward"
 			}
 			desc := fmt.Sprintf("%s (%s) probe=%v headers=%q: status=%d body=%q forwarded=%v", r.Tag, protoOf(w, ci), aux.ProbeOn, r.Header, status, body, forwarded)
+			if w.Cancelled {
+				// shut down meanwhile: a forward may have failed or lost its answer (request
+				// contexts are cancelled, O6) - that shows as a gateway error, nothing else
+				switch {
+				case local && forwarded:
+					w.Violate("both_or_neither", "both_or_neither", "request was answered locally and forwarded: %s", desc)
+				case want == "local" && !local:
+					w.Violate("probe_forwarded", "probe_forwarded", "probe request was not answered locally with 200 OK (shutdown in progress): %s", desc)
+				case want == "forward" && (local || !(fromBackend || status >= 500)):
+					w.Violate("nonprobe_local", "nonprobe_local", "non-probe request got an answer that is neither the back-end's nor a gateway error (shutdown in progress): %s", desc)
+				default:
+					w.Probe("judged_during_shutdown")
+				}
+				continue
+			}
 			if forwarded == local || forwarded != fromBackend {
 				w.Violate("both_or_neither", "both_or_neither", "request was answered locally=%v and forwarded=%v (backend response seen=%v): %s", local, forwarded, fromBackend, desc)
 				continue
